@@ -1,6 +1,7 @@
 import Driver.Util
 import Driver.Codec
 import Model.Retry
+import Model.Bufio
 /-! Driver.Retry — `retry write` (C07 A) and the summary line of `conn cwrite` (C07 B). -/
 namespace DV.Drv
 
@@ -36,6 +37,31 @@ def judgeRetry (r : Nat) (outs : List Outcome) (b : Bytes) (impl : List String) 
     if offs.length > r + 1 then fails := "C07:more-attempts-than-budget" :: fails
     return { model := modelOut, fails := fails.reverse,
              tags := [s!"attempts={res.offered.length} err={showEK res.err} partial={decide (res.accepted.any (fun a => a.length > 0 ∧ a.length < b.length))}"] }
+
+/-- the second message of `retry conn` (a DWA with Result-Code 2001) -/
+def retryConnPost : Bytes :=
+  [1,0,0,32, 0, 0,1,24, 0,0,0,0, 0,0,0,7, 0,0,0,7, 0,0,1,12, 0x40, 0,0,12, 0,0,7,0xd1]
+
+/-- `retry conn r=<n> outs=<k:e,..> b=<hex> => acc=<hex> n=<n> err=<..> post=<nil|err>:<hex>` -/
+def judgeRetryConn (r : Nat) (outs : List Outcome) (b : Bytes) (impl : List String) : Judged :=
+  let res := connWriteRetry r {} b outs
+  let ((_, pe), pw) := respWrite res.st retryConnPost res.os
+  let modelOut := s!"acc={hexOrDash res.accepted.flatten} n={res.n} err={showEK res.err} post={if pe.isNone then "nil" else "err"}:{hexOrDash pw.acc.flatten}"
+  Id.run do
+    let mut fails : List String := []
+    let acc := ((kv impl "acc").bind fromHex).getD []
+    let n := (kvNat impl "n").getD 0
+    let err := (kv impl "err").getD ""
+    let postTok := (kv impl "post").getD "nil:-"
+    let pacc := (((postTok.splitOn ":").getD 1 "-") |> fromHex).getD []
+    if acc ≠ b.take acc.length then fails := "C07:transport-given-bytes-twice-or-out-of-order" :: fails
+    if err = "nil" ∧ acc ≠ b then fails := "C07:nil-error-but-message-incomplete" :: fails
+    if err = "nil" ∧ n ≠ b.length then fails := "C07:returned-count-wrong" :: fails
+    -- the stream stays framed: after an incomplete message nothing more may follow it
+    if acc.length ≠ 0 ∧ acc ≠ b ∧ pacc.length ≠ 0 then fails := "C07:stream-out-of-frame-after-failed-write" :: fails
+    if pacc ≠ retryConnPost.take pacc.length then fails := "C07:transport-given-bytes-twice-or-out-of-order" :: fails
+    return { model := modelOut, fails := fails.reverse.eraseDups,
+             tags := [s!"retryconn len={b.length} attempts={res.attempts} err={showEK res.err} partial={decide (res.accepted.flatten.length > 0 ∧ res.accepted.flatten.length < b.length)} direct={decide (b.length > 4096)}"] }
 
 /-- `conn cwrite ... => whole=<ok|..> multiset=<ok|..> order=<ok|..>` -/
 def judgeCwrite (impl : List String) : Judged :=
